@@ -392,4 +392,22 @@ theorem good_finish {s : State} (h : Inv s) (pid : Nat)
         have e0 : countList i (Res.vals (some (Res.ok v))) = v.count i := by simp [Res.vals]
         simp only [Proc.count_eq, hst, countList_cons] at *; omega
 
+theorem good_notifyAll (pid : Nat) (v : Val) (as : List Nat) : ∀ {s : State}, Inv s →
+    GoodT s (notifyAll pid v s as) := by
+  induction as with
+  | nil => intro s h; exact GoodT.refl h
+  | cons a rest ih =>
+    intro s h
+    have g := good_notifyResult h a pid v []
+    simp only [notifyAll]
+    exact g.trans (ih g.inv)
+
+theorem good_notifyAwaiters {s : State} (h : Inv s) (pid : Nat) : GoodT s (notifyAwaiters s pid) := by
+  unfold notifyAwaiters
+  split
+  · split
+    · exact good_notifyAll pid _ _ h
+    · exact GoodT.refl h
+  · exact GoodT.refl h
+
 end QM.Heap
